@@ -919,6 +919,9 @@ func c17Narrowing(c *Ctx, fns []*ssa.Function) {
 				}
 				pred := map[int]int{}
 				before := reach(fn, []*ssa.BasicBlock{fn.Blocks[0]}, del, pred)
+				if fn.Blocks[0] == b {
+					before[b.Index] = true
+				}
 				if !before[b.Index] {
 					c.Pass("R17f", key, pos, "every path to the conversion compares the quantity first")
 					continue
@@ -965,9 +968,12 @@ func c17Narrowing(c *Ctx, fns []*ssa.Function) {
 					// covered by kill blocks when the branch stores the sentinel
 					continue
 				}
-				starts = succsFrom(b, del2)
+				// one search in two legs (entry to the conversion without a comparison, on from there
+				// without a comparison or an overwrite), so that a flag set on the first leg
+				// (`minVersion = zip45`) still decides the branch taken on the second
+				_ = starts
 				pred2 := map[int]int{}
-				after := reach(fn, starts, del2, pred2)
+				_, after := reachVia(fn, []*ssa.BasicBlock{fn.Blocks[0]}, del, nil, b, del2, pred2)
 				bad := ""
 				var path []string
 				for _, sb := range fn.Blocks {
@@ -977,7 +983,7 @@ func c17Narrowing(c *Ctx, fns []*ssa.Function) {
 					for _, sin := range sb.Instrs {
 						switch y := sin.(type) {
 						case ssa.CallInstruction:
-							if p.calleeName(y.Common()) == "encoding/binary.Write" && bad == "" {
+							if p.calleeName(y.Common()) == "encoding/binary.Write" && bad == "" && writesRecord(p, y, field) {
 								bad = "serialised at " + p.Pos(y.Pos())
 								path = p.witness(fn, pred2, sb.Index)
 							}
@@ -986,7 +992,7 @@ func c17Narrowing(c *Ctx, fns []*ssa.Function) {
 				}
 				// same block: a binary.Write after the conversion
 				for i := instrIndex(cv) + 1; i < len(b.Instrs) && bad == ""; i++ {
-					if y, ok := b.Instrs[i].(ssa.CallInstruction); ok && p.calleeName(y.Common()) == "encoding/binary.Write" {
+					if y, ok := b.Instrs[i].(ssa.CallInstruction); ok && p.calleeName(y.Common()) == "encoding/binary.Write" && writesRecord(p, y, field) {
 						bad = "serialised at " + p.Pos(y.Pos())
 					}
 				}
@@ -998,6 +1004,27 @@ func c17Narrowing(c *Ctx, fns []*ssa.Function) {
 			}
 		}
 	}
+}
+
+// writesRecord: may this binary.Write serialise the record type the field belongs to? (A value
+// of another record type boxed into the data argument cannot hold the narrowed field.)
+func writesRecord(p *Prog, ci ssa.CallInstruction, field string) bool {
+	args := ci.Common().Args
+	if len(args) < 3 {
+		return true
+	}
+	mi, ok := args[2].(*ssa.MakeInterface)
+	if !ok {
+		return true
+	}
+	t := mi.X.Type()
+	if pt, ok := t.Underlying().(*types.Pointer); ok {
+		t = pt.Elem()
+	}
+	if _, isStruct := t.Underlying().(*types.Struct); !isStruct {
+		return true
+	}
+	return strings.HasPrefix(field, typeName(p, t)+".")
 }
 
 func describeVal(p *Prog, v ssa.Value) string {
